@@ -23,7 +23,7 @@ func init() {
 			"non-trivial = the source has >= 12 tokens and Format changed at least one byte; distinct by source hash",
 		Assumptions: []string{"hclsyntax.LexConfig defines the token sequence of a text (its own tiling is C14's subject)", "cty value equality"},
 		Quick:       Plan{Batches: 16, PerBatch: 1500, MinNonTrivial: 8000},
-		Thorough:    Plan{Batches: 64, PerBatch: 6000, MinNonTrivial: 150000},
+		Thorough:    Plan{Batches: 64, PerBatch: 24000, MinNonTrivial: 150000},
 		Case:        c09Case,
 	})
 }
@@ -100,6 +100,8 @@ func c09Source(c *core.Case) ([]byte, *gen.Scope) {
 	return []byte(gen.RenderNative(body, fl)), sc
 }
 
+var c09Other = []byte("other   =   [ 1,2 ,3 ]   # an unrelated configuration\nblock   \"l\"   {\n a=1\n}\n")
+
 func c09Case(c *core.Case) {
 	src, sc := c09Source(c)
 	c.SetInput(string(src))
@@ -111,6 +113,17 @@ func c09Case(c *core.Case) {
 	}
 	out := hclwrite.Format(src)
 	c.Evals(1)
+	// the formatter's output belongs to the caller: later Format calls (here:
+	// the idempotence call and one on an unrelated input) must not change it
+	snapshot := string(out)
+	defer func() {
+		hclwrite.Format(c09Other)
+		if string(out) != snapshot {
+			c.Violation("output-changed-by-a-later-call", fmt.Sprintf("the bytes returned by Format(src) changed after later Format calls on other inputs:\nreturned: %q\nnow:      %q", trunc(snapshot, 500), trunc(string(out), 500)), nil)
+		} else {
+			c.Count("output-stable-across-later-calls")
+		}
+	}()
 	srcToks, _ := lexPairs(src)
 	outToks, _ := lexPairs(out)
 	if d := firstTokDiff(srcToks, outToks); d != "" {
